@@ -276,6 +276,9 @@ def job(args):
             if sig not in seen_v and cnt < limits.get("max_viol_per_label", 6):
                 seen_v.add(sig)
                 out["violations"].append(v)
+        if len(out["violations"]) >= limits.get("stop_after_violations", 10 ** 9):
+            out["stopped_early"] = True
+            break
         fin = env._final
         if status == "ok" and fin is not None and fin[0] is not None:
             assign, expect = fin
